@@ -52,6 +52,20 @@ pub fn generate_scenario(property: &str, seed: u64, run: u64, thorough: bool) ->
             "C14" => {
                 f.corrupt = pickf(&mut rng, 0.4, 0.02, 0.2);
             }
+            "C20" => {
+                f = Faults::default();
+                if !fault_free {
+                    let mut pickf = |rng: &mut Rng, p_enable: f64, lo: f64, hi: f64| -> f64 {
+                        if rng.chance(p_enable) { rng.log_uniform(lo, hi) } else { 0.0 }
+                    };
+                    f.chain_down = pickf(&mut rng, 0.5, 0.01, 0.06); // aggregator unreachable for a signer tick
+                    f.stale_delivery = pickf(&mut rng, 0.5, 0.03, 0.3); // stale epoch settings
+                    f.drop = pickf(&mut rng, 0.6, 0.05, 0.4); // registration lost / ack lost
+                    f.dup = pickf(&mut rng, 0.7, 0.05, 0.5); // signature lost / ack lost / duplicated
+                    f.restart = pickf(&mut rng, 0.6, 0.005, 0.05); // aggregator and signer restarts
+                    f.lag = pickf(&mut rng, 0.5, 0.05, 0.6); // per-node chain view lag
+                }
+            }
             "C06" => {
                 f.reregister = pickf(&mut rng, 0.7, 0.05, 0.3);
                 f.dup = pickf(&mut rng, 0.7, 0.05, 0.4);
@@ -153,7 +167,102 @@ impl Driver {
         d
     }
 
+    /// C20 bootstrap with real signer nodes: two epochs of registrations, genesis, next epoch.
+    pub fn bootstrap_c20(&mut self, sc: &Scenario) -> Vec<Event> {
+        use crate::signer::LinkPolicy;
+        let tick = |p: usize| Event::SignerTick { party: p, policy: LinkPolicy::default() };
+        let mut ev = vec![Event::Tick, Event::Tick];
+        for round in 0..2 {
+            let mut order: Vec<usize> = (0..sc.n_parties).collect();
+            self.rng.shuffle(&mut order);
+            for _ in 0..4 {
+                for p in &order {
+                    ev.push(tick(*p));
+                }
+            }
+            if round == 1 {
+                ev.push(Event::Genesis);
+            }
+            ev.extend([Event::Epoch { by: 1 }, Event::SyncView]);
+            for p in 0..sc.n_parties {
+                ev.push(Event::SignerSyncView { party: p });
+            }
+            ev.extend([Event::Tick, Event::Tick]);
+        }
+        ev
+    }
+
+    /// C20 steady state: the aggregator and the real signer nodes tick in a seeded order, under
+    /// seeded link policies.
+    pub fn next_c20(&mut self, w: &World) -> Event {
+        use crate::signer::LinkPolicy;
+        self.since_epoch += 1;
+        let f = &w.sc.faults;
+        let n = w.signers.len();
+        let rng = &mut self.rng;
+        let lagging: Vec<usize> = (0..n).filter(|p| !w.signer_view_is_synced(*p)).collect();
+        let mut choices: Vec<(u32, u8)> = vec![(30, 0), (5, 1), (45, 2)];
+        if !w.view_is_synced() {
+            choices.push((if f.lag > 0.0 { (12.0 * (1.0 - f.lag)) as u32 + 2 } else { 1000 }, 3));
+        }
+        if !lagging.is_empty() {
+            choices.push((if f.lag > 0.0 { (14.0 * (1.0 - f.lag)) as u32 + 2 } else { 1000 }, 4));
+        }
+        let rec = w.epoch + 1;
+        let all_registered = (0..n).all(|p| {
+            w.link.calls.lock().unwrap().iter().any(|c| c.party == p && c.kind == "register-signer" && c.status == Some(201) && c.body.contains(&format!("\"epoch\":{rec},")))
+        });
+        let fault_free = !f.any();
+        let epoch_certified = !fault_free || w.db().map(|db| db.certificates().iter().any(|c| !c.is_genesis && c.epoch == w.epoch)).unwrap_or(false);
+        if self.since_epoch >= self.epoch_len && self.epochs_done < w.sc.epochs && ((all_registered && epoch_certified) || (!fault_free && self.since_epoch >= 3 * self.epoch_len)) {
+            choices.push((25, 5));
+        }
+        if w.sc.entity_types.iter().any(|t| t == "CDB") {
+            choices.push((3, 6));
+        }
+        let w100 = |p: f64| (p * 100.0).round() as u32;
+        if f.restart > 0.0 {
+            choices.push((w100(f.restart), 7));
+            choices.push((w100(f.restart) * 2, 8));
+        }
+        let weights: Vec<u32> = choices.iter().map(|c| c.0.max(1)).collect();
+        match choices[rng.weighted(&weights)].1 {
+            0 => Event::Tick,
+            1 => Event::Background { polls: 4 },
+            2 => {
+                let party = rng.index(n);
+                let mut policy = LinkPolicy::default();
+                if f.chain_down > 0.0 && rng.chance(f.chain_down * 4.0) {
+                    policy.unreachable = true;
+                }
+                if f.stale_delivery > 0.0 && rng.chance(f.stale_delivery) {
+                    policy.stale_epoch_settings = rng.range(1, 2);
+                }
+                if f.drop > 0.0 && rng.chance(f.drop) {
+                    policy.registration = rng.range(1, 2) as u8;
+                }
+                if f.dup > 0.0 && rng.chance(f.dup) {
+                    policy.signature = rng.range(1, 3) as u8;
+                }
+                Event::SignerTick { party, policy }
+            }
+            3 => Event::SyncView,
+            4 => Event::SignerSyncView { party: *rng.pick(&lagging) },
+            5 => {
+                self.since_epoch = 0;
+                self.epochs_done += 1;
+                Event::Epoch { by: 1 }
+            }
+            6 => Event::Immutable,
+            7 => Event::Restart,
+            _ => Event::SignerRestart { party: rng.index(n) },
+        }
+    }
+
     pub fn next(&mut self, w: &World) -> Event {
+        if !w.signers.is_empty() {
+            return self.next_c20(w);
+        }
         self.since_epoch += 1;
         let f = &w.sc.faults;
         // --- steady state
@@ -415,6 +524,89 @@ impl Quiescer {
                 self.phase += 1;
                 self.ticks = 0;
                 self.quiet_ticks = 0;
+                Some(Event::Epoch { by: 1 })
+            }
+        }
+    }
+}
+
+/// C20 quiescence: no link faults, views in sync, everybody ticks; three phases separated by
+/// "immutable +1, epoch +1"; a `CheckLiveness` marker ends each phase.
+pub struct QuiescerC20 {
+    phase: u8,
+    round: usize,
+    cursor: usize,
+    sub: u8,
+    done: bool,
+}
+
+impl QuiescerC20 {
+    pub fn new() -> QuiescerC20 {
+        QuiescerC20 { phase: 0, round: 0, cursor: 0, sub: 0, done: false }
+    }
+
+    pub fn next(&mut self, w: &World) -> Option<Event> {
+        use crate::signer::LinkPolicy;
+        if self.done {
+            return None;
+        }
+        let n = w.signers.len();
+        if self.sub == 0 {
+            if !w.agg.is_up() {
+                return Some(Event::Restart);
+            }
+            if w.agg_view.lock().unwrap().down {
+                return Some(Event::ChainDown { down: false });
+            }
+            if !w.view_is_synced() {
+                return Some(Event::SyncView);
+            }
+            if let Some(p) = (0..n).find(|p| !w.signer_view_is_synced(*p)) {
+                return Some(Event::SignerSyncView { party: p });
+            }
+            let rounds = 4 * (w.sc.entity_types.len() + 3);
+            if self.round < rounds {
+                // one round = aggregator tick, every signer ticks, (every third round) background
+                let per_round = n + 2;
+                let ev = match self.cursor {
+                    0 => Event::Tick,
+                    c if c <= n => Event::SignerTick { party: c - 1, policy: LinkPolicy::default() },
+                    _ => {
+                        if self.round % 3 == 2 {
+                            Event::Background { polls: 4 }
+                        } else {
+                            Event::Tick
+                        }
+                    }
+                };
+                self.cursor += 1;
+                if self.cursor >= per_round {
+                    self.cursor = 0;
+                    self.round += 1;
+                }
+                return Some(ev);
+            }
+            self.sub = 1;
+            return Some(Event::Background { polls: 4 });
+        }
+        match self.sub {
+            1 => {
+                self.sub = 2;
+                Some(Event::CheckLiveness)
+            }
+            2 => {
+                if self.phase >= 2 {
+                    self.done = true;
+                    return None;
+                }
+                self.sub = 3;
+                Some(Event::Immutable)
+            }
+            _ => {
+                self.sub = 0;
+                self.phase += 1;
+                self.round = 0;
+                self.cursor = 0;
                 Some(Event::Epoch { by: 1 })
             }
         }
